@@ -235,25 +235,32 @@ def expected_with_omitted_tail(v, lopt, fd_at, depth=0):
     return tuple(expected_with_omitted_tail(x, lopt, fd_at, depth + 1) for x in v[1:])
 
 
-def key_orders(v):
-    """For every map of the data (pre-order): acceptable key orders (first / last occurrence)."""
-    out = []
-
-    def rec(x):
-        if x is None or isinstance(x, str) or x[0] in ("AL", "AM"):
-            return
-        if x[0] == "M":
-            ks = [p[0] for p in x[1:]]
-            first = list(dict.fromkeys(ks))
-            last = list(reversed(list(dict.fromkeys(reversed(ks)))))
-            out.append((first, last))
-            for p in x[1:]:
-                rec(p[1])
-        else:
-            for c in x[1:]:
-                rec(c)
-    rec(v)
-    return out
+def key_order_violation(v, got):
+    """``got`` is a normalised result equal (as data) to expected(v).  Walk both together and return
+    (observed key order, acceptable orders) of the first map whose keys are not in source order, else
+    None.  For a repeated key both the position of its first and of its last occurrence are accepted."""
+    if v is None or isinstance(v, str) or v[0] in ("AL", "AM"):
+        return None
+    if v[0] == "M":
+        ks = [p[0] for p in v[1:]]
+        first = list(dict.fromkeys(ks))
+        last = list(reversed(list(dict.fromkeys(reversed(ks)))))
+        obs = list(got.keys())
+        if obs != first and obs != last:
+            return (obs, [first, last])
+        final = {}
+        for key, val in v[1:]:
+            final[key] = val            # the value that survives is the last one
+        for key, val in final.items():
+            r = key_order_violation(val, got[key])
+            if r is not None:
+                return r
+        return None
+    for c, g in zip(v[1:], got):
+        r = key_order_violation(c, g)
+        if r is not None:
+            return r
+    return None
 
 
 # ------------------------------------------------------------------------------- renderer
@@ -431,18 +438,6 @@ def normalise(x, in_seq=False):
     raise Shape("unexpected-node", repr(x)[:200], in_seq)
 
 
-def result_key_orders(x, out):
-    """Key orders of every dict in a *normalised* result, pre-order (matches key_orders)."""
-    if isinstance(x, dict):
-        out.append(list(x.keys()))
-        for v in x.values():
-            result_key_orders(v, out)
-    elif isinstance(x, (list, tuple)):
-        for i in x:
-            result_key_orders(i, out)
-    return out
-
-
 # ------------------------------------------------------------------------------- comparer
 def _kind(x):
     return {list: "list", dict: "map", tuple: "sequence", str: "atom", type(None): "none"}.get(type(x), "other")
@@ -508,7 +503,11 @@ def selftest():
     # "{a:{}, b:[]}"  and repeated key keeps the last value
     v = ["M", ["a", ["M"]], ["b", ["L"]], ["a", "b"]]
     assert render(v, L_DEFAULT, M).tokens == ["{", "a", ":", "{", "}", ",", "b", ":", "[", "]", ",", "a", ":", "b", "}"]
-    assert expected(v) == {"a": "b", "b": []} and key_orders(v)[0] == (["a", "b"], ["b", "a"])
+    assert expected(v) == {"a": "b", "b": []}
+    assert key_order_violation(v, {"a": "b", "b": []}) is None and key_order_violation(v, {"b": [], "a": "b"}) is None
+    w = ["M", ["a", "a"], ["b", ["M", ["a", "a"], ["b", "a"]]], ["a", ["M"]]]
+    assert key_order_violation(w, {"a": {}, "b": {"a": "a", "b": "a"}}) is None
+    assert key_order_violation(w, {"a": {}, "b": {"b": "a", "a": "a"}}) == (["b", "a"], [["a", "b"], ["a", "b"]])
     # optional list: "[a b c] 10" / "10" / "[] 10" -> list / None / []   (TestOptionalListParsers)
     LO = LOpt(True, False, None, True, False)
     assert render(["AL"], LO, M).tokens == ["<", ">"] and expected(["AL"]) is None
